@@ -11,7 +11,7 @@ Level(s) == IF s \in L3Sigs THEN 3 ELSE IF s \in L2Sigs THEN 2 ELSE 1
 Window == 2
 (* which signatures are planted in which input: x1 -> b1 ; x2 -> b2 and l1 ; x3 -> l2 ; x4 -> c1 ; anything else -> none.  Variants (suffix U = case
    changed, E = embedded in benign text, H = hostile decoration) carry the same signatures as their base. *)
-Base(x) == CASE x \in {"x1", "x1U", "x1E", "x1H"} -> "x1" [] x \in {"x2", "x2U", "x2E", "x2H"} -> "x2" [] x \in {"x3", "x3U", "x3E"} -> "x3"
+Base(x) == CASE x \in {"x1", "x1U", "x1E", "x1H", "x1L"} -> "x1" [] x \in {"x2", "x2U", "x2E", "x2H", "x2L"} -> "x2" [] x \in {"x3", "x3U", "x3E", "x3L"} -> "x3"
              [] x \in {"x4", "x4U", "x4E"} -> "x4" [] OTHER -> "x0"
 Planted(x) == CASE Base(x) = "x1" -> {"b1"} [] Base(x) = "x2" -> {"b2", "l1"} [] Base(x) = "x3" -> {"l2"} [] Base(x) = "x4" -> {"c1"} [] OTHER -> {}
 VARIABLES active, threshold, blocked, times, now, obs, everBlocked, allowedAt, epochSeen
